@@ -108,12 +108,14 @@ def build_motif(params, B):
 		return mot, numpy.repeat(mi[None], B, axis=0), None
 	if form == "t1":
 		mi = motif_idx(mot, A)
-		t = to_ohe(mi[None], A, mdt)
-		return t, numpy.repeat(mi[None], B, axis=0), t
+		t, tb = gen.relayout(to_ohe(mi[None], A, mdt), gen.layout_of(params,
+			"motif"))
+		return t, numpy.repeat(mi[None], B, axis=0), t if tb is None else tb
 	if form == "tB":
 		mi = numpy.stack([motif_idx(mot[b % len(mot)], A) for b in range(B)])
-		t = to_ohe(mi, A, mdt)
-		return t, mi, t
+		t, tb = gen.relayout(to_ohe(mi, A, mdt), gen.layout_of(params,
+			"motif"))
+		return t, mi, t if tb is None else tb
 	if form == "tWrong":
 		k = params["wrong_k"]
 		mi = numpy.stack([motif_idx(mot[b % len(mot)], A) for b in range(k)])
@@ -171,11 +173,12 @@ def case_subins(cls, params, rec):
 	idx = seqs_of(params)
 	B, L = idx.shape
 	X = to_ohe(idx, A, DT[params.get("xdtype", "int8")])
+	params, X, xbase = gen.apply_layout(params, rec, X)
 	marg, mi, mt = build_motif(params, B)
 	m = len(params["motif"]) if params["form"] in ("str", "t1") else len(
 		params["motif"][0])
 	p = params["start"]
-	mon = gen.Immutable(X=X, motif=mt)
+	mon = gen.Immutable(X=X, Xbase=xbase, motif=mt)
 	kw = {"alphabet": list(alpha(A))}
 	st, val = gen.call(getattr(ersatz, fn), X, marg, start=mk_start(params),
 		**kw)
@@ -246,8 +249,9 @@ def case_delete(cls, params, rec):
 	idx = seqs_of(params)
 	B, L = idx.shape
 	X = to_ohe(idx, A, DT[params.get("xdtype", "int8")])
+	params, X, xbase = gen.apply_layout(params, rec, X)
 	s, e = params["start"], params["end"]
-	mon = gen.Immutable(X=X)
+	mon = gen.Immutable(X=X, Xbase=xbase)
 	st, val = gen.call(ersatz.delete, X, s, e)
 	if mon.changed():
 		rec.violation(cls, params, {"what": "caller tensor modified"},
@@ -305,6 +309,7 @@ def case_multi(cls, params, rec):
 	idx = seqs_of(params)
 	B, L = idx.shape
 	X = to_ohe(idx, A, DT[params.get("xdtype", "int8")])
+	params, X, xbase = gen.apply_layout(params, rec, X)
 	margs, mis, watch = [], [], {}
 	for k, (mot, form) in enumerate(zip(params["motifs"], params["forms"])):
 		marg, mi, mt = build_motif({"A": A, "form": form, "motif": mot}, B)
@@ -316,7 +321,7 @@ def case_multi(cls, params, rec):
 	sp = [spacing] * (len(mis) - 1) if isinstance(spacing, int) else list(
 		spacing)
 	start = params["start"]
-	mon = gen.Immutable(X=X, **watch)
+	mon = gen.Immutable(X=X, Xbase=xbase, **watch)
 	sparg = spacing if isinstance(spacing, int) else list(spacing)
 	margs_before = list(margs)
 	st, val = gen.call(ersatz.multisubstitute, X, margs, sparg, start=start,
@@ -415,6 +420,7 @@ def case_randomize(cls, params, rec):
 	idx = seqs_of(params)
 	B, L = idx.shape
 	X = to_ohe(idx, A, DT[params.get("xdtype", "int8")])
+	params, X, xbase = gen.apply_layout(params, rec, X)
 	s, e, n = params["start"], params["end"], params["n"]
 	pk = params["probs"]
 	if pk == "uniform":
@@ -434,7 +440,7 @@ def case_randomize(cls, params, rec):
 		"probs_tensor") else None
 	parg = pt if pt is not None else probs
 	seed = params["seed"]
-	mon = gen.Immutable(X=X, probs=pt)
+	mon = gen.Immutable(X=X, Xbase=xbase, probs=pt)
 	st, val = gen.call(ersatz.randomize, X, s, e, probs=parg, n=n,
 		random_state=seed)
 	if mon.changed():
